@@ -72,7 +72,7 @@ fn make(kind: &str, inner: Dyn, n: usize) -> Dyn {
         "super_smoother" => d(SuperSmoother::new(inner, n)), "roofing_filter" => d(RoofingFilter::new(inner, n, n.max(1))),
         "cyber_cycle" => d(CyberCycle::new(inner, n)), "trend_flex" => d(TrendFlex::new(inner, n)), "re_flex" => d(ReFlex::new(inner, n)),
         "eft" => d(EhlersFisherTransform::new(inner, Sma::new(Echo::new(), 2), n)),
-        "eft_ss" => d(EhlersFisherTransform::new(inner, SuperSmoother::new(Echo::new(), 4), n)),
+        "eft_ss" => d(EhlersFisherTransform::new(inner, SuperSmoother::new(Echo::new(), 3), n)),
         "pfe" => d(PolarizedFractalEfficiency::new(inner, Sma::new(Echo::new(), 2), n)),
         "tanh" => d(Tanh::new(inner)), "gte" => d(GTE::new(inner, 0.5)), "lte" => d(LTE::new(inner, 0.5)),
         "drawdown" => d(Drawdown::new(inner)), "ln_return" => d(LnReturn::new(inner)), "welford_rolling" => d(WelfordRolling::new(inner)),
@@ -89,7 +89,7 @@ fn make2(kind: &str, a: Dyn, b: Dyn) -> Dyn {
 
 // ---------- streams
 fn gen_stream(r: &mut Rng, len: usize, positive: bool) -> Vec<f64> {
-    let style = r.below(8);
+    let style = r.below(10);
     let vals: &[f64] = &[-3.0, -2.0, -1.5, -1.0, -0.5, 0.0, 0.0, 0.5, 1.0, 1.0, 2.0, 2.5, 3.0, 4.0];
     let mut out = Vec::with_capacity(len);
     let mut cur = r.pick(vals);
@@ -102,6 +102,8 @@ fn gen_stream(r: &mut Rng, len: usize, positive: bool) -> Vec<f64> {
             4 => { cur -= 0.5; cur }                                       // strictly decreasing
             5 => if i == (len / 3) { 64.0 } else { r.pick(&[0.0, 1.0, -1.0]) },   // one spike
             6 => if i < len / 2 { r.pick(vals) } else { 1.0 },             // volatile then flat
+            8 => if (i / 3) % 2 == 0 { 0.0 } else { 1.0 },                   // square wave (step to the window extreme and hold)
+            9 => if i < 2 { i as f64 } else if i < len / 2 { 0.95 } else { 1.0 },
             _ => r.pick(&[0.0, 0.0, 1.0, -1.0, 2.0]),                      // many zeros
         };
         out.push(if positive { x.abs() + 0.5 } else { x });
@@ -367,6 +369,7 @@ fn check_chain(outer: &str, inner: &str, n: usize, h: &[f64]) -> Option<String> 
     let mut a = make(inner, echo(), n); let mut b = make(outer, echo(), n);
     for (t, &x) in h.iter().enumerate() {
         chain.update(x); a.update(x);
+        if positive_only(outer) { if let Some(y) = a.last() { if !(y > 0.0) { return None; } } }     // outside the stated domain
         if let Some(y) = a.last() { b.update(y); }
         let (c, e) = (chain.last(), b.last());
         if c.map(f64::to_bits) != e.map(f64::to_bits) { return Some(format!("step {t}: chain {c:?} vs decomposition {e:?}")); }
@@ -632,7 +635,8 @@ fn search(prop: &str, s: &mut Search) -> (usize, Option<Case>) {
         match prop {
             "C01" | "C08" | "C15" | "C17" => {
                 c.inner = s.rng.pick(&inners).into();
-                if positive_only(k) { c.inner = s.rng.pick(&["echo", "sma", "max", "ema"]).into(); c.stream = gen_stream(&mut s.rng, len, true); }
+                if positive_only(k) { c.inner = s.rng.pick(&["echo", "sma", "max", "ema", "cumulative"]).into(); c.stream = gen_stream(&mut s.rng, len, true);
+                    if c.inner != "echo" && prop == "C01" { for i in 1..c.stream.len() { if s.rng.below(5) == 0 { c.stream[i] = 0.0; } } } }
                 if c.inner == "ln_return" { c.stream = gen_stream(&mut s.rng, len, true); if positive_only(k) { c.inner = "echo".into(); } }
                 if prop == "C01" && s.rng.below(5) == 0 { let op = s.rng.pick(BINARY); c.view = op.into(); c.inner = format!("{}+{}", s.rng.pick(&inners[..8]), s.rng.pick(&inners[..8])); }
             }
